@@ -11,10 +11,17 @@ def load_claims():
     p = os.path.join(V, 'tools', 'claims.py')
     spec = importlib.util.spec_from_file_location('claims', p)
     mod = importlib.util.module_from_spec(spec); spec.loader.exec_module(mod)
-    return mod.CLAIMS, mod.NOT_APPLICABLE
+    return mod.CLAIMS, mod.NOT_APPLICABLE, mod.COMMON_SCOPE
+
+
+def rules_of(pid):
+    """the rule texts as the check itself wrote them into its evidence file"""
+    ev = json.load(open(os.path.join(V, 'evidence', '%s.json' % pid)))
+    ex = ev['coverage']['explanation']
+    return ex.split('): ', 1)[1] if '): ' in ex else ex
 
 def main():
-    claims, na = load_claims()
+    claims, na, scope = load_claims()
     checks = []
     for pid in sorted(claims):
         c = claims[pid]
@@ -25,7 +32,8 @@ def main():
             'evidence_file': 'evidence/%s.json' % pid,
             'replay_cmd_template': 'cat {path}',
             'engine': 'sa',
-            'level_claimed': {'category': 'other', 'text': c['text'], 'design_ref': 'DESIGN.md section 4, %s' % pid},
+            'level_claimed': {'category': 'other', 'text': scope + rules_of(pid) + '. NOT decided: ' + c['not_decided'],
+                              'design_ref': 'DESIGN.md section 12 (as rebuilt) and section 4, %s' % pid},
             'level_note': c['note'],
             'technique': c['technique'],
         })
@@ -42,7 +50,7 @@ def main():
         'engines': [{
             'name': 'sa', 'path': 'sa/',
             'serves_properties': sorted(claims),
-            'kind_free_text': 'repository-specific static analysis: ast-based repository model (imports, static C3 MRO, constant folding), path-sensitive abstract interpretation / conditional constant propagation over finite domains, effect and ownership scans, jinja2/ZPT template context analysis; no execution of plasTeX',
+            'kind_free_text': 'repository-specific static analysis: ast-based repository model (imports, static C3 MRO, constant folding), path-sensitive abstract interpretation with a small heap (constant propagation over finite scenario families; unknown outcomes are exit 2), structural dataflow, effect and ownership scans, jinja2/ZPT template context analysis and template interpretation; no execution of plasTeX',
         }],
         'checks': checks,
         'not_applicable': [{'property_id': k, 'reason': v} for k, v in sorted(na.items()) if k not in claims],
